@@ -573,6 +573,96 @@ impl BuilderArea {
                     }
                 }
             }
+            ["chback", eref, kind, nfront] => {
+                // the child iterators are forward iterators in the crate as it is; should they ever offer `next_back`, front and back
+                // reads of ONE iterator must tile the children: `nfront` items from the front, then everything from the back, must be the
+                // forward sequence (checked on the implementation only; the model answers `ok`)
+                let Some(id) = eref.strip_prefix('e').and_then(|s| s.parse::<usize>().ok()) else { return Some("bad-op".into()) };
+                let Some((_t, e)) = self.red.elems.get(id).cloned() else { return Some("bad-op".into()) };
+                let NodeOrToken::Node(n) = e else { return Some("ok".into()) };
+                let nfront: usize = nfront.parse().unwrap_or(0);
+                cx.count("op.chback");
+                let r = catch(|| {
+                    use crate::util::backprobe::*;
+                    let fwd: Vec<(bool, u32, u32)>;
+                    let mixed: Option<Vec<(bool, u32, u32)>>;
+                    if *kind == "nodes" {
+                        let key = |x: &SyntaxNode<K>| (true, u32::from(x.text_range().start()), u32::from(x.text_range().end()));
+                        fwd = n.children().map(key).collect();
+                        let mut p = Probe(n.children());
+                        let mut front = vec![];
+                        for _ in 0..nfront {
+                            if let Some(x) = p.0.next() { front.push(key(x)); }
+                        }
+                        let mut back = vec![];
+                        let mut avail = true;
+                        loop {
+                            match (&mut p).probe_back() {
+                                None => { avail = false; break; }
+                                Some(None) => break,
+                                Some(Some(x)) => back.push(key(x)),
+                            }
+                            if back.len() > fwd.len() + 2 { break; }
+                        }
+                        back.reverse();
+                        front.extend(back);
+                        mixed = if avail { Some(front) } else { None };
+                    } else {
+                        let key = |x: SyntaxElementRef<'_, K>| (x.as_node().is_some(), u32::from(x.text_range().start()), u32::from(x.text_range().end()));
+                        fwd = n.children_with_tokens().map(key).collect();
+                        let mut p = Probe(n.children_with_tokens());
+                        let mut front = vec![];
+                        for _ in 0..nfront {
+                            if let Some(x) = p.0.next() { front.push(key(x)); }
+                        }
+                        let mut back = vec![];
+                        let mut avail = true;
+                        loop {
+                            match (&mut p).probe_back() {
+                                None => { avail = false; break; }
+                                Some(None) => break,
+                                Some(Some(x)) => back.push(key(x)),
+                            }
+                            if back.len() > fwd.len() + 2 { break; }
+                        }
+                        back.reverse();
+                        front.extend(back);
+                        mixed = if avail { Some(front) } else { None };
+                    }
+                    (fwd, mixed)
+                });
+                match r {
+                    Ok((fwd, Some(mixed))) => {
+                        if fwd != mixed {
+                            cx.fail("C02", format!("e{}: {} children read {} from the front and the rest from the back of one iterator: {:?}, forwards: {:?}", id, kind, nfront, mixed, fwd));
+                        }
+                        "ok".into()
+                    }
+                    Ok((_, None)) => "ok".into(),
+                    Err(m) => {
+                        cx.fail("C03", format!("e{}: front/back reads of the {} iterator panicked: {}", id, kind, m));
+                        "ok".into()
+                    }
+                }
+            }
+            ["kindstamp"] => {
+                // C08: the Send / Sync impls of the handles say nothing about the kind type `S`; that is sound only as long as the tree
+                // never *keeps* a value of `S`.  A kind type that stamps every value with the thread that made it (`from_raw`) shows
+                // whether `kind()` on one thread can hand out a value made on another.
+                cx.count("op.kindstamp");
+                let r = catch(|| crate::util::backprobe::kind_stamp_probe());
+                match r {
+                    Ok(None) => "ok".into(),
+                    Ok(Some(m)) => {
+                        cx.fail("C08", m);
+                        "ok".into()
+                    }
+                    Err(m) => {
+                        cx.fail("C08", format!("kind stamp probe panicked: {}", m));
+                        "ok".into()
+                    }
+                }
+            }
             ["chiter", eref, kind, ops @ ..] => {
                 let Some(id) = eref.strip_prefix('e').and_then(|s| s.parse::<usize>().ok()) else { return Some("bad-op".into()) };
                 let Some((t, e)) = self.red.elems.get(id).cloned() else { return Some("bad-op".into()) };
